@@ -21,6 +21,7 @@ RULE = (
     "fault-free evaluation; same-step siblings may or may not be present. Non-trivial: the failing node has >= 1 "
     "upstream or downstream node; distinct = (program shape, failing node position, mode)."
     ' A third of the programs have outputs that cannot be copied or pickled (UTerm); exception classes include falsy objects (__bool__ False, __len__ 0) and one whose __str__ itself raises; the classes are used in turn for the map cases.'
+    " Exception classes include the library's own (MissingInputError, IncompatibleRunnerError, GraphConfigError, InfiniteLoopError) raised by a node function. Cyclic programs whose exit node fails after the loop (two writers of one name in exclusive branches taking turns; counter loops): the FAILED result carries the latest value of every name."
     " Also: an exception class whose __str__ itself raises; FAILED items of runner.map(error_handling='continue') must carry what a single failing run on that item had completed."
 )
 ASSUMPTIONS = [
@@ -66,7 +67,9 @@ class BoomNoStr(Exception):
         return "failed on item %d" % self.args[0]  # args[0] is a str: TypeError
 
 
-EXC_KINDS = ["Boom", "BoomValue", "BoomKey", "BoomRuntime", "BoomValue-empty", "Assertion-empty", "Boom", "BoomFalsy", "BoomEmptyLen", "BoomNoStr"]
+# Lib*: the library's OWN exception classes raised by a node function (a node that drives a sub-workflow through its own
+# runner, or builds a graph on the fly, re-raises exactly these)
+EXC_KINDS = ["Boom", "BoomValue", "BoomKey", "BoomRuntime", "BoomValue-empty", "Assertion-empty", "Boom", "BoomFalsy", "BoomEmptyLen", "BoomNoStr", "LibMissingInput", "LibIncompatibleRunner", "LibGraphConfig", "LibInfiniteLoop"]
 
 
 def make_exc(kind, msg):
@@ -87,6 +90,17 @@ def make_exc(kind, msg):
         return BoomEmptyLen(msg)
     if kind == "BoomNoStr":
         return BoomNoStr(msg)
+    if kind.startswith("Lib"):
+        from hypergraph.exceptions import IncompatibleRunnerError, InfiniteLoopError, MissingInputError
+        from hypergraph.graph.validation import GraphConfigError
+
+        if kind == "LibMissingInput":
+            return MissingInputError(["inner_x"], ["inner_y"], msg)
+        if kind == "LibIncompatibleRunner":
+            return IncompatibleRunnerError(msg, node_name="inner_node")
+        if kind == "LibGraphConfig":
+            return GraphConfigError(msg)
+        return InfiniteLoopError(7, msg)
     return Boom(msg)
 
 
@@ -406,6 +420,47 @@ class _FailItems:
         return False
 
 
+def loop_faults(ctx):
+    """Cyclic programs whose EXIT node fails (it runs once, alone in its step, after the loop has finished): the FAILED
+    result must carry the LATEST value of every name the completed iterations wrote - also of a name with two writers in
+    exclusive branches that take turns - and the seed-fed cycle name; both runners, run and single-item map."""
+    from hgmon import loops
+
+    progs = []
+    for N, c0 in ((4, 1), (3, 0), (5, 2), (2, 1), (6, 1)):
+        progs.append((loops.alternating_writers_loop(N, c0), "altw/fin", "result"))
+    for N, L, g in ((3, 1, "route"), (4, 2, "ifelse"), (2, 3, "route")):
+        progs.append((loops.counter_loop(N, 0, L, g, True), "loop/done", "result"))
+    for t, fid, out in progs:
+        spec, inputs = t["spec"], t["inputs"]
+        for ns in spec["nodes"]:
+            ns.setdefault("fid", f"{spec['name']}/{ns['name']}")
+        expected = {k: v for k, v in t["ref"]["values"].items() if k != out}
+        for runner in ("sync", "async"):
+            kind = EXC_KINDS[ctx.obs["loop_fault_runs"] % len(EXC_KINDS)]
+            exc = make_exc(kind, f"boom in {fid}")
+            s = core.with_async(spec, runner == "async", ctx.rng)
+            o = core.execute(s, inputs, runner, fail={fid: exc}, error_handling="continue", sched=rt.Sched(default="rand", rng=ctx.rng) if runner == "async" else None)
+            ctx.obs["faults_injected"] += 1
+            ctx.obs["loop_fault_runs"] += 1
+            case = {"spec": spec, "inputs": inputs, "failing": [fid], "mode": "continue", "runner": runner, "program": t["template"], "exc_kind": kind, "loop": True}
+            if o.deadlock or o.inconclusive:
+                ctx.inconc(o.inconclusive or "deadlock under fault injection")
+                continue
+            ctx.obs["identity_checked"] += 1
+            err = o.exc if o.exc is not None else o.error
+            if err is not exc:
+                ctx.violation("C11:identity" + (":wrapped" if _chain_has(err, exc) else ""), f"{t['template']}/{runner}: surfaced {err!r} is not the object raised by the exit node", case)
+                continue
+            if o.exc is not None or o.status != "failed":
+                ctx.violation("C11:status", f"{t['template']}/{runner}: errors are collected, yet the call {'raised' if o.exc is not None else 'returned ' + str(o.status)}", case)
+                continue
+            ctx.obs["partial_checked"] += 1
+            if (o.values or {}) != expected:
+                ctx.violation("C11:partial-wrong-value", f"{t['template']}/{runner}: FAILED result {core.short(o.values, 300)}; the completed iterations left {core.short(expected, 300)}", case)
+        ctx.case({"p": "loop-exit-fault", "t": t["template"], "n": len(t["ref"]["counts"])}, True)
+
+
 def run(ctx):
     n = 50 if ctx.tier == "quick" else 900
     core.WARM_P = 0.1
@@ -419,6 +474,8 @@ def run(ctx):
         ctx.case("r1")
         ctx.case("r2")
         return
+    if ctx.shard[0] == 0:
+        loop_faults(ctx)
     for i in range(n):
         rng = ctx.rng
         r = rng.random()
